@@ -133,3 +133,12 @@ Theorem C33_save_restore_shared_offset_refuted :
   save_restore 3 4 1 [10; 11; 12; 13]%Z = [10; 11; 12; 13]%Z.
 Proof. exact save_restore_shared_offset_wrong. Qed.
 Print Assumptions C33_save_restore_shared_offset_refuted.
+
+(* mj_copySpec's CopyList skips an element whose references do not resolve in the copy: the copy is complete exactly
+   when every element of the source resolves -- so a source element left in a state that only Compile repairs (a wrap
+   whose type was switched by a previous compile) makes the copy silently smaller *)
+Theorem C33_copy_list_complete :
+  forall (A : Type) (resolves : A -> bool) (l : list A),
+    (forall x : A, In x l -> resolves x = true) <-> copy_list resolves l = l.
+Proof. exact (fun A => @copy_list_complete A). Qed.
+Print Assumptions C33_copy_list_complete.
